@@ -70,6 +70,7 @@ func cmdRand(o *Out, p *Package, j Job) {
 	}
 	sort.Strings(names)
 	rand.Seed(j.Seed) // the generated code uses the global source
+	reachable := p.Reachable()
 	for _, name := range names {
 		fn := reflect.ValueOf(p.Funcs[name])
 		rt := fn.Type().Out(0)
@@ -92,16 +93,15 @@ func cmdRand(o *Out, p *Package, j Job) {
 				o.Violation(p.ID, "rand-malformed:"+classOf(msg), fmt.Sprintf("%s() returned a malformed value: %s\nvalue: %s", name, msg, goString(out)))
 				break
 			}
-			// JSON round trip of C02 (interfaces holding nothing cannot be marshalled; reported above)
-			if rt.Kind() != reflect.Interface {
-				doc, ok := checkJSONValue(o, p, u, rt, out, u.ReachesUnion(rt), false, nil, "rand-")
-				if !ok {
+			// JSON round trip of C02: for named types whose wrappers exist (reachable
+			// from the analysed file) or which need none
+			fp, _ := json.Marshal(fmt.Sprintf("%#v", out.Interface()))
+			distinct[hash(fp)] = true
+			if rt.Kind() != reflect.Interface && rt.Name() != "" && (!u.ReachesUnion(rt) || (reachable[rt] && j.Opts["no-wrappers"] != "1")) {
+				if _, ok := checkJSONValue(o, p, u, rt, out, u.ReachesUnion(rt), false, nil, "rand-"); !ok {
 					break
 				}
-				distinct[hash(doc)] = true
-			} else {
-				b, _ := json.Marshal(fmt.Sprintf("%#v", out.Interface()))
-				distinct[hash(b)] = true
+				o.Count("rand-values-round-tripped", 1)
 			}
 		}
 		if canVary && len(distinct) < 2 && calls >= 8 {
